@@ -182,6 +182,14 @@ func codeIn(n ast.Node) []string {
 				out = append(out, strings.TrimPrefix(s, "ErrorCode_"))
 			}
 		}
+		// … or the code is handed to a helper that builds the error response: f(…, hagallpb.ErrorCode_X)
+		if ce, ok := m.(*ast.CallExpr); ok {
+			for _, a := range ce.Args {
+				if se, ok := a.(*ast.SelectorExpr); ok && strings.HasPrefix(se.Sel.Name, "ErrorCode_") {
+					out = append(out, strings.TrimPrefix(se.Sel.Name, "ErrorCode_"))
+				}
+			}
+		}
 		return true
 	})
 	return out
